@@ -888,7 +888,7 @@ PROPS = {
                      "Keto.C09_legacy_plain", "Keto.C09_reachWithin_spec", "Keto.C09_reachAll_spec",
                      "Keto.C09_leaves_column_partial", "Keto.C09_order_counterexample"],
         "streams": [{"name": "expand", "n": {"quick": 400, "thorough": 2000}, "oracle": oracle_c09, "thorough_seeds": 3},
-                    {"name": "mapper", "n": {"quick": 150, "thorough": 800}, "oracle": oracle_c09_names, "thorough_seeds": 2}],
+                    {"name": "mapper", "n": {"quick": 300, "thorough": 1500}, "oracle": oracle_c09_names, "thorough_seeds": 2}],
         "rule": EXPAND_RULE + "; stream mapper (see C16): expand through the REST and gRPC routes over names with separators, + and %XX",
         "partial": "completeness within the effective depth is violated (known finding F-expand-order); proved instead: completeness whenever the run made no depth cut (cuts = 0)",
         "assumptions": ["limit.max_read_depth >= 1 (required by the configuration schema) for C09_depth"],
